@@ -38,9 +38,10 @@ EXTRA = {
         "a consultation may refuse the table (ColumnUnitException, InvalidNamingError for duplicate names, ValueError "
         "for a dtype kind without a StarTable unit): no unit list is reported then, which the statement allows",
     ],
-    "explanation": "reachable_inv / units_positional / writers_pair (Props/C04.lean) hold for every finite history with "
-                   "arbitrary frame effects; the model is tied to the code by differential execution of histories and by "
-                   "the pinned _unit_from_dtype_kind / _units_special constants.",
+    "explanation": "reachable_inv / units_positional / make_own_units / own_unit_kept / writers_pair / json_pairs "
+                   "(Props/C04.lean) hold for every finite history with arbitrary frame effects and do not depend on the "
+                   "values of the translated unit tables; the model is tied to the code by differential execution of "
+                   "histories (and of _update_columns, check_dtype, unit_from_dtype, _combine_tables at function level).",
     "trusted_base": [
         "harness-side observation of pandas objects (df.columns, df.dtypes, df.empty) and the in-process wrappers around "
         "pdtable.frame._combine_tables / TableDataFrame.__finalize__ used to observe derived frames",
@@ -1300,7 +1301,7 @@ def run(tier, seed, model_ok, translator, search=False, prop="C04", weights=None
                 "transitions. Non-trivial: history with >= 1 successful consultation of "
                 "a table with rows after an operation; distinct by (start table, operation descriptions).")
     thorough = tier == "thorough"
-    n_rand = 2600 if thorough else 400
+    n_rand = 2500 if thorough else 400
     depth_max = 10
     ex_depth = 3 if thorough else 2
     if search:
@@ -1326,10 +1327,13 @@ def run(tier, seed, model_ok, translator, search=False, prop="C04", weights=None
     scripts = scripts_of(SCRIPT_ALPHABET, ex_depth)
     for i, sc in enumerate(scripts):
         add(run_history(out, prop, seed, "ex%d" % ex_depth, i, len(sc), weights=None, plan=EX_PLAN, script=list(sc)))
-    e_depth = 4 if thorough else 3
+    e_depth = 3
     escripts = [sc for sc in scripts_of(E_ALPHABET, e_depth) if len(sc) >= 2]
+    if thorough:
+        escripts = escripts + escripts          # thorough: every script from both start tables
     for i, sc in enumerate(escripts):
-        add(run_history(out, prop, seed, "exE%d" % e_depth, i, len(sc), weights=None, plan=E_PLANS[i % 2], script=list(sc)))
+        add(run_history(out, prop, seed, "exE%d" % e_depth, i, len(sc), weights=None,
+                        plan=E_PLANS[(i + i // (len(escripts) // 2 if thorough else len(escripts) + 1)) % 2], script=list(sc)))
     out.count("exhaustive_scripts", len(scripts) + len(escripts))
     for i in range(n_rand):
         rng_d = make_rng(seed, f"{prop}:depth:{i}")
@@ -1357,8 +1361,9 @@ def replay(rep, prop="C04", weights=None):
     out = Outcome()
     seed, stream, index = int(inp["seed"]), inp["stream"], int(inp["index"])
     if stream.startswith("exE"):
-        sc = [x for x in scripts_of(E_ALPHABET, int(stream[3:])) if len(x) >= 2][index]
-        run_history(out, prop, seed, stream, index, len(sc), plan=E_PLANS[index % 2], script=list(sc))
+        base = [x for x in scripts_of(E_ALPHABET, int(stream[3:])) if len(x) >= 2]
+        sc = base[index % len(base)]
+        run_history(out, prop, seed, stream, index, len(sc), plan=E_PLANS[(index + index // len(base)) % 2], script=list(sc))
     elif stream.startswith("ex"):
         sc = scripts_of(SCRIPT_ALPHABET, int(stream[2:]))[index]
         run_history(out, prop, seed, stream, index, len(sc), plan=EX_PLAN, script=list(sc))
